@@ -1,6 +1,6 @@
 CONSTANTS
   Depth = 3
-  Bases = {"S3i", "S5i", "S5x"}
+  Bases = {"S3i", "S5i", "S5x", "T2e", "T3"}
 SPECIFICATION Spec
 INVARIANT Transparent
 INVARIANT OnlyAdditions
